@@ -47,7 +47,12 @@ Q_OPTS = {
 }
 
 
-def run(pid, path):
+def run(pid, path, quiet=False):
+    if quiet:
+        import contextlib
+        import io
+        with contextlib.redirect_stdout(io.StringIO()):
+            return run(pid, path)
     if not os.path.isabs(path):
         path = os.path.join(common.VERIF, path)
     payload = json.load(open(path))
